@@ -41,11 +41,11 @@ for td in sys.argv[1:]:
         if c != 0 or m == 0:
             print("NOT confirmed", mid, "clean", c, "mutant", m)
             continue
-        out = f"/verif/seeded/{prop}-m{mid[1:]}"
+        out = f"/verif/seeded/{prop}-{mid[0].lower()}{mid[1:]}"
         os.makedirs(out, exist_ok=True)
         shutil.copy(f"{MUT}/{mid}.diff", f"{out}/patch.diff")
         shutil.copy(d, f"{out}/demo.py")
-        meta = {"property": prop, "variant": "m" + mid[1:], "summary": f"first-order mutant {idx[mid]['file']}:{idx[mid]['line']} {idx[mid]['what']} (`{idx[mid]['code']}`): {v['reason']}",
+        meta = {"property": prop, "variant": mid[0].lower() + mid[1:], "summary": f"first-order mutant {idx[mid]['file']}:{idx[mid]['line']} {idx[mid]['what']} (`{idx[mid]['code']}`): {v['reason']}",
                 "files": ["src/bumpver/" + idx[mid]["file"]], "needs_to_manifest": v.get("witness", ""),
                 "suite_result": "500 passed, 25 failed, 1 error (unchanged; tools/mutate.py run)", "demo_unpatched_exit": c, "demo_patched_exit": m,
                 "author": "tools/mutate.py (systematic first-order mutant); verdict and demonstration by an independent triage sub-agent that saw only the properties and a scratch worktree",
